@@ -152,7 +152,9 @@ pub fn run(out: &mut Out, rng: &mut Rng, thorough: bool) {
 			for &a in &ALL_FMTS {
 				for &b in &ALL_FMTS {
 					// Large sizes only for the pairs where they are cheap.
-					if n > 5000 && (a == Fmt::Yaml || b == Fmt::Yaml || a == Fmt::Toml || b == Fmt::Toml) && !thorough {
+					// Sizes above 5 000 only for the JSON / MessagePack pairs (the YAML
+					// and TOML crates take seconds per such document).
+					if n > 5000 && (a == Fmt::Yaml || b == Fmt::Yaml || a == Fmt::Toml || b == Fmt::Toml) {
 						continue;
 					}
 					if v.representable(a) && v.representable(b) {
